@@ -259,6 +259,8 @@ def _read_out(path, res, binary, base_args):
                 elif t == 'stats':
                     got_stats = True
                     res.merge_stats(o)
+                    if o.get('counters', {}).get('shards_stopped_after_hang'):
+                        res.stopped_after_hang = True
     hp = path + '.hashes'
     if os.path.exists(hp):
         a = array.array('Q')
@@ -387,6 +389,10 @@ def run_sharded(binary, total, seed, tier, args=(), env=None, shards=None, timeo
             except OSError:
                 pass
             if r['verdict'] == 'ok' and r['rc'] == 0 and got_stats:
+                break
+            if getattr(local, 'stopped_after_hang', False):
+                # the harness reported a hang and stopped itself (exit status is
+                # meaningless with stuck threads around): do not restart this shard
                 break
             # abnormal end
             case = crash['case'] if crash else (cur if cur is not None and cur != 2 ** 64 - 1 else lo)
